@@ -31,10 +31,11 @@ enum Kind : unsigned char {
 	INDEX, SLICED, SLICED3, STRIDED, DROPPED, TAKED, ROTATED, UNROTATED, TRANSPOSED, TILDE, REVERSED, DIAGONAL,
 	PARTITIONED, CHUNKED, FLATTED, PAREN0, CALL,
 	REINDEXED, BLOCKED, STENCILED, REINDEXEDN, STENCILEDN,  // C19 only
+	HALVED, FRONT, BACK,
 	NKINDS
 };
 static char const* const kname[] = {"index", "sliced", "sliced3", "strided", "dropped", "taked", "rotated", "unrotated", "transposed", "tilde", "reversed", "diagonal",
-	"partitioned", "chunked", "flatted", "paren0", "call", "reindexed", "blocked", "stenciled", "reindexedn", "stenciledn"};
+	"partitioned", "chunked", "flatted", "paren0", "call", "reindexed", "blocked", "stenciled", "reindexedn", "stenciledn", "halved", "front", "back"};
 
 enum AKind : unsigned char { A_IDX, A_RNG, A_ALL };
 struct Arg { unsigned char kind; signed char a, b; };
@@ -154,6 +155,9 @@ inline bool m_apply(MView& v, Op const& o) {
 		case CHUNKED: { if(D >= DMAX) { return false; } idx n = d[0].size/o.a; MDim in{0, o.a, d[0].stride}; d[0] = MDim{0, n, d[0].stride*o.a}; d.insert(d.begin() + 1, in); return true; }
 		case FLATTED: { if(D < 2) { return false; } MDim n{0, d[0].size*d[1].size, d[1].stride}; d.erase(d.begin()); d[0] = n; return true; }
 		case PAREN0: return true;
+		case HALVED: { if(D >= DMAX || d[0].size == 0 || d[0].size % 2 != 0) { return false; } idx h = d[0].size/2; MDim in{d[0].first, h, d[0].stride}; d[0] = MDim{0, 2, d[0].stride*h}; d.insert(d.begin() + 1, in); return true; }
+		case FRONT: if(D < 2 || d[0].size == 0) { return false; } d.erase(d.begin()); return true;
+		case BACK: if(D < 2 || d[0].size == 0) { return false; } v.base += (d[0].size - 1)*d[0].stride; d.erase(d.begin()); return true;
 		case CALL: {
 			std::vector<MDim> nd;
 			for(int j = 0; j < D; ++j) {
@@ -200,6 +204,8 @@ inline std::vector<Op> enabled(MView const& v, Menu const& mn) {
 	if(D >= 2) { r.push_back(mk(TRANSPOSED)); r.push_back(mk(TILDE)); r.push_back(mk(DIAGONAL)); }
 	if(D < DMAX) { for(idx s = 1; s <= n; ++s) { if(n%s == 0) { r.push_back(mk(PARTITIONED, s)); r.push_back(mk(CHUNKED, s)); } } }
 	if(D >= 2 && nonempty && (n <= 1 || v.d[0].stride == v.d[1].size*v.d[1].stride)) { r.push_back(mk(FLATTED)); }
+	if(D < DMAX && n >= 2 && n % 2 == 0) { r.push_back(mk(HALVED)); }
+	if(D >= 2 && n >= 1) { r.push_back(mk(FRONT)); r.push_back(mk(BACK)); }
 	// call syntax
 	{
 		int kmax = std::min(D, mn.call_maxargs);
@@ -308,6 +314,9 @@ void apply1(V&& v, Op const& o, K&& k) {
 		case CHUNKED: if constexpr(D < DMAX) { k(FWV.chunked(o.a)); } return;
 		case FLATTED: if constexpr(D >= 2) { k(FWV.flatted()); } return;
 		case PAREN0: k(FWV()); return;
+		case HALVED: if constexpr(D < DMAX) { k(FWV.halved()); } return;
+		case FRONT: if constexpr(D >= 2) { k(FWV.front()); } return;
+		case BACK: if constexpr(D >= 2) { k(FWV.back()); } return;
 		case CALL: call_rec<0>(std::forward<V>(v), o, 0, k); return;
 #ifdef VM_REBASE_OPS
 		case REINDEXED: if constexpr(has_reindexed1_<V&&>::value) { k(FWV.reindexed(o.a)); } return;
